@@ -119,7 +119,7 @@ Theorem mslice_write_then f k rest x aux v x' :
 Proof.
   intros Vx Hv Hw. unfold fe_mslice. rewrite Vx. cbn [mslice_run]. unfold bind. rewrite Hv, Hw.
   assert (T : sv_ty x' = sv_ty x).
-  { unfold write_form in Hw. destruct f; repeat match type of Hw with
+  { unfold write_form in Hw. destruct f; try discriminate; repeat match type of Hw with
       | context [bind ?o _] => destruct o; cbn [bind] in Hw; try discriminate
       | context [match ?o with _ => _ end] => destruct o; try discriminate
       end; try (injection Hw as <-; reflexivity). }
